@@ -751,6 +751,18 @@ func doCheck(id, tier string) int {
 			fatal(fmt.Errorf("harness %s not found in %s", h.Func, h.Pkg))
 		}
 		opt := interp.Options{}
+		// wall-clock limit per harness: a change to the repository can make the solver's work much harder
+		// (or a path space explode); what was not explored by then is reported as INCONCLUSIVE, and
+		// whatever violation was found before is still replayed and reported
+		opt.Timeout = 8 * time.Minute
+		if tier == "thorough" {
+			opt.Timeout = 90 * time.Minute
+		}
+		if v := os.Getenv("SYMGO_HARNESS_TIMEOUT"); v != "" {
+			if d, err := time.ParseDuration(v); err == nil {
+				opt.Timeout = d
+			}
+		}
 		if v := h.Opts["maxpaths"]; v != "" {
 			opt.MaxPaths, _ = strconv.Atoi(v)
 		}
